@@ -126,6 +126,10 @@ func (cj *CookieJar) Set(uri *fasthttp.URI, cookies ...*fasthttp.Cookie) {
 //
 // CookieJar stores copies of the provided cookies, so they may be safely released after use.
 func (cj *CookieJar) SetByHost(host []byte, cookies ...*fasthttp.Cookie) {
+	// cookies are looked up by host name without the port
+	if h, _, err := net.SplitHostPort(utils.UnsafeString(host)); err == nil {
+		host = utils.UnsafeBytes(h)
+	}
 	hostStr := utils.UnsafeString(host)
 
 	cj.mu.Lock()
@@ -186,6 +190,10 @@ func (cj *CookieJar) dumpCookiesToReq(req *fasthttp.Request) {
 
 // parseCookiesFromResp parses the cookies from the response and stores them for the specified host and path.
 func (cj *CookieJar) parseCookiesFromResp(host, path []byte, resp *fasthttp.Response) {
+	// cookies are looked up by host name without the port
+	if h, _, err := net.SplitHostPort(utils.UnsafeString(host)); err == nil {
+		host = utils.UnsafeBytes(h)
+	}
 	hostStr := utils.UnsafeString(host)
 
 	cj.mu.Lock()
